@@ -1275,3 +1275,60 @@ def stride_params(tu, name):
             if base:
                 rel.setdefault(base[0], set()).update(mult_ints(k[1]) | mult_ints(k[0]))
     return {params[k][0]: sorted(params[i][0] for i in v) for k, v in rel.items() if v}
+
+
+def extent_params(tu, name):
+    """{pointer parameter: integer parameter N} when the C body subscripts the pointer parameter itself directly
+    with the induction variable of a loop `for (i = ...; i < N; ...)` whose bound is the integer parameter N:
+    the function touches exactly elements [0, N) of that array along its leading index."""
+    params = {p["id"]: (p.get("name"), p.get("type", {}).get("qualType", "")) for p in tu.params(name)}
+    body = tu.body(name)
+    out = {}
+    if body is None:
+        return out
+
+    def visit(n, loops):
+        k = n.get("kind")
+        if k == "ForStmt":
+            raw = [c for c in (n.get("inner") or []) if isinstance(c, dict)]
+            if len(raw) == 5:
+                init, _, cond, inc, bod = raw
+                var = None
+                for x in cfacts.walk(init) if init.get("kind") else ():
+                    if x.get("kind") == "VarDecl":
+                        var = x.get("id")
+                        break
+                    if x.get("kind") == "BinaryOperator" and x.get("opcode") == "=":
+                        t = cfacts.strip(cfacts.kids(x)[0])
+                        if t.get("kind") == "DeclRefExpr":
+                            var = t["referencedDecl"]["id"]
+                        break
+                bound = None
+                if cond.get("kind") == "BinaryOperator" and cond.get("opcode") == "<":
+                    ck = cfacts.kids(cond)
+                    l, r = cfacts.strip(ck[0]), cfacts.strip(ck[1])
+                    if l.get("kind") == "DeclRefExpr" and l["referencedDecl"]["id"] == var \
+                            and r.get("kind") == "DeclRefExpr" and r["referencedDecl"]["id"] in params \
+                            and "*" not in params[r["referencedDecl"]["id"]][1]:
+                        bound = r["referencedDecl"]["id"]
+                new = loops + ([(var, bound)] if var is not None and bound is not None else [])
+                visit(bod, new)
+                return
+        if k == "ArraySubscriptExpr":
+            ks = cfacts.kids(n)
+            b, i = cfacts.strip(ks[0]), cfacts.strip(ks[1])
+            if b.get("kind") == "DeclRefExpr" and b["referencedDecl"]["id"] in params \
+                    and i.get("kind") == "DeclRefExpr":
+                for var, bound in loops:
+                    if i["referencedDecl"]["id"] == var:
+                        out.setdefault(params[b["referencedDecl"]["id"]][0], set()).add(params[bound][0])
+        for c in cfacts.kids(n):
+            if c.get("kind") == "CapturedStmt":
+                cd = cfacts.kids(c)
+                if cd and cd[0].get("kind") == "CapturedDecl" and cfacts.kids(cd[0]):
+                    visit(cfacts.kids(cd[0])[0], loops)
+                return
+            visit(c, loops)
+
+    visit(body, [])
+    return {p: sorted(v)[0] for p, v in out.items() if len(v) == 1}
